@@ -702,22 +702,26 @@ fn complex_scaled_space(ctx: &Ctx, n: usize, nletters: usize) {
 
 fn scaled_space(ctx: &Ctx) {
     // uniformly scaled twins of the 2x2 / 3x3 integer lattices: conditioning is scale invariant, so the same threshold applies
-    let scales = [2f64.powi(-60), 2f64.powi(-30), 2f64.powi(40), 1e-18, 1e18];
+    // 2^-1030: every entry is SUBNORMAL (a reciprocal of a pivot overflows although every multiplier is a ratio of small integers);
+    // 2^+-1000: close to both ends of the range
+    let scales = [2f64.powi(-60), 2f64.powi(-30), 2f64.powi(40), 1e-18, 1e18, 2f64.powi(-1030), 2f64.powi(-1000), 2f64.powi(1000)];
     for (n, letters) in [(2usize, z5()), (3usize, z3())] {
         let len = pow(letters.len() as u64, (n * n) as u32);
         ctx.lattice(
-            &format!("f64 n={} uniformly scaled integer lattice x scales {{2^-60,2^-30,2^40,1e-18,1e18}}", n),
+            &format!("f64 n={} uniformly scaled integer lattice x scales {{2^-60,2^-30,2^40,1e-18,1e18,2^-1030,2^-1000,2^1000}}", n),
             len * scales.len() as u64,
-            |idx| format!("{} scale {:e}", model::show(&model::mat_from_idx(idx / 5, n, &letters)), scales[(idx % 5) as usize]),
+            |idx| format!("{} scale {:e}", model::show(&model::mat_from_idx(idx / 8, n, &letters)), scales[(idx % 8) as usize]),
             |idx, acc| {
-                let a = model::mat_from_idx(idx / 5, n, &letters);
+                let a = model::mat_from_idx(idx / 8, n, &letters);
                 if model::det(&a).is_zero() {
                     return;
                 }
-                let sc = scales[(idx % 5) as usize];
+                let sc = scales[(idx % 8) as usize];
                 acc.nontriv("uniformly scaled system");
                 let af: F = model::to_f(&a).iter().map(|r| r.iter().map(|x| x * sc).collect()).collect();
-                let b: Vec<f64> = (0..n).map(|i| if i % 2 == 0 { 1.0 + i as f64 } else { -2.0 }).collect();
+                // the right-hand side carries the scale too when the solution would otherwise leave the range
+                let bs = if sc < 1e-300 || sc > 1e300 { sc } else { 1.0 };
+                let b: Vec<f64> = (0..n).map(|i| (if i % 2 == 0 { 1.0 + i as f64 } else { -2.0 }) * bs).collect();
                 let mut local = Acc::new("tmp");
                 let res = catch(|| check_f64(&af, &b, false, Some(&mut local)));
                 acc.merge_worst(local);
